@@ -44,6 +44,9 @@ def check(ctx):
     ctx.attempt(_raises)
     ctx.attempt(_at_least_one_tract)
     ctx.attempt(_kwargs)
+    n = common.discarded_results(ctx, _parser_funcs(ctx))
+    if n == 0:
+        ctx.ok('DISCARD', 'no validated / converted value is computed and dropped (bare-statement calls to pure functions)')
 
 
 def _parser_funcs(ctx):
@@ -93,9 +96,8 @@ def _optional_attrs(ctx):
     # the lists those values go into are joined: elements must be lists of str
     pc = ctx.repo.func('ChunkParser.parse_chunk')
     t = ' '.join(norm(s) for s in walk_local(pc.node) if isinstance(s, ast.stmt))
-    ctx.check("','.join(seclist)" in t and 'for seclist in self.working_sec_list' in t, 'EXC',
-              'parse_chunk joins each unused section list', detail_bad="unused_sec flag construction changed",
-              key="EXC|parse_chunk|join")
+    ctx.shape("','.join(seclist)" in t and 'for seclist in self.working_sec_list' in t, 'EXC',
+              'parse_chunk joins each unused section list')
 
 
 def _remove_guard(ctx):
@@ -211,6 +213,13 @@ def _int_sites(ctx):
                 continue
             prov = flow.provenance(fi.node, arg)
             calls = flow.prov_calls(prov)
+            strippers = sorted(cn for cn in calls if cn.split('.')[-1] in ('lstrip', 'rstrip', 'strip', 'replace'))
+            if strippers and (calls & {'get_rightmost_lot', 'get_rightmost_sec', 'get_rightmost'}):
+                ctx.violation('EXC', f"{fi.qualname}: {norm(c)[:40]} takes digits only",
+                              f"the digit string reaches int() through {strippers}, which can leave it empty "
+                              f"(e.g. '0' or '00'): ValueError on a section/lot written as 0",
+                              key=f"EXC|{fi.qualname}|int|{norm(arg)[:30]}|strip", where=common.loc(fi, c))
+                continue
             safe = False
             why = ''
             if calls & {'get_rightmost_lot', 'get_rightmost_sec', 'get_rightmost'}:
@@ -228,9 +237,8 @@ def _int_sites(ctx):
                 why = 'digit string produced in this function'
                 if arg.id == 'text':
                     safe, why = True, 'str_to_value wraps int() in try'  # covered by in_try normally
-            ctx.check(bool(safe), 'EXC', f"{fi.qualname}: {norm(c)[:40]} takes digits only", str(why),
-                      f"`{norm(c)}` is neither inside try/except ValueError nor fed by a digit-only regex group",
-                      key=f"EXC|{fi.qualname}|int|{norm(arg)[:30]}", where=common.loc(fi, c))
+            ctx.shape(bool(safe), 'EXC', f"{fi.qualname}: {norm(c)[:40]} takes digits only", str(why),
+                      why="neither inside try/except ValueError nor recognisably fed by a digit-only group")
     ctx.floor('int() sites', n, 10)
 
 
@@ -297,13 +305,13 @@ def _at_least_one_tract(ctx):
               'every path through parse_chunk stages a copy_all tract or reaches the empty-result fallback',
               detail_bad="a path returns from parse_chunk with possibly zero tract components", key="SINK|parse_chunk|one-tract")
     rep = [c for c in ast.walk(fb[0]) if isinstance(c, ast.Call) and dotted(c.func) == 'ChunkParser']
-    ctx.check(len(rep) == 1 and len(rep[0].args) >= 2 and norm(rep[0].args[1]) == 'COPY_ALL', 'SINK',
-              'the fallback re-parses the chunk as copy_all (which always stages one tract)',
-              detail_bad="fallback no longer uses COPY_ALL", key="SINK|parse_chunk|fallback-copyall")
+    ctx.shape(len(rep) == 1 and len(rep[0].args) >= 2 and norm(rep[0].args[1]) == 'COPY_ALL', 'SINK',
+              'the fallback re-parses the chunk as copy_all (which always stages one tract)')
     ca = ctx.repo.func('ChunkParser._parse_copyall')
     calls = [c for c in walk_local(ca.node) if isinstance(c, ast.Call) and dotted(c.func) == 'self._stage_new_tract']
-    ctx.check(len(calls) == 1 and not guards(calls[0]), 'SINK', '_parse_copyall stages unconditionally',
-              detail_bad="copy_all staging became conditional", key="SINK|_parse_copyall|uncond")
+    ctx.tri(len(calls) == 1 and not guards(calls[0]), len(calls) == 1 and bool(guards(calls[0])), 'SINK',
+            '_parse_copyall stages unconditionally',
+            detail_bad="copy_all staging became conditional: a chunk can end with zero tracts", key="SINK|_parse_copyall|uncond")
     # chunker: at least one block
     seg = ctx.repo.func('PLSSChunker.segment')
     helpers = [enclosing_stmt(c) for c in walk_local(seg.node) if isinstance(c, ast.Call)
@@ -327,26 +335,22 @@ def _at_least_one_tract(ctx):
         f2 = ctx.repo.func(h)
         loops = [n for n in f2.node.body if isinstance(n, ast.For) and 'enumerate(matches)' in norm(n.iter)]
         ok = len(loops) == 1 and any(norm(s) == 'self.blocks.append(new_block)' for s in loops[0].body)
-        ctx.check(ok, 'SINK', f"{h.split('.')[-1]} appends one block per match, unconditionally",
-                  detail_bad="block append became conditional", key=f"SINK|{h}|append")
+        ctx.shape(ok, 'SINK', f"{h.split('.')[-1]} appends one block per match, unconditionally")
     pi = ctx.repo.func('PLSSParser.__init__')
-    ctx.check('self.blocks = [self.text]' in [norm(s) for s in walk_local(pi.node) if isinstance(s, ast.stmt)], 'SINK',
-              'without segmenting there is exactly one block', detail_bad="default blocks changed", key="SINK|PLSSParser|blocks")
+    ctx.shape('self.blocks = [self.text]' in [norm(s) for s in walk_local(pi.node) if isinstance(s, ast.stmt)], 'SINK',
+              'without segmenting there is exactly one block')
     pp = ctx.repo.func('PLSSParser.parse')
     loops = [n for n in pp.node.body if isinstance(n, ast.For) and norm(n.iter) == 'self.blocks']
     ok = len(loops) == 1 and any(isinstance(s, ast.Expr) and isinstance(s.value, ast.Call)
                                  and dotted(s.value.func) == 'ChunkParser' for s in loops[0].body)
-    ctx.check(ok, 'SINK', 'every block gets a ChunkParser (unconditionally)', detail_bad="chunk loop changed",
-              key="SINK|PLSSParser.parse|chunks")
+    ctx.shape(ok, 'SINK', 'every block gets a ChunkParser (unconditionally)')
     # sections handed to construct_tracts are non-empty lists
     gs = ctx.repo.func('ChunkParser.get_next_sec')
     t = ' '.join(norm(s) for s in walk_local(gs.node) if isinstance(s, ast.stmt))
-    ctx.check('self.working_sec = [MasterConfig._ERR_SEC]' in t, 'SINK', 'no section left -> a one-element error list',
-              detail_bad="fallback section list changed", key="SINK|get_next_sec|fallback")
+    ctx.shape('[MasterConfig._ERR_SEC]' in t, 'SINK', 'no section left -> a one-element error list')
     su = ctx.repo.func('SecUnpacker.unpack_sections')
     t = ' '.join(norm(s) for s in walk_local(su.node) if isinstance(s, ast.stmt))
-    ctx.check('working_sec_list.append(new_sec)' in t, 'SINK', 'SecUnpacker yields at least the matched section',
-              detail_bad="standalone section append changed", key="SINK|SecUnpacker|append")
+    ctx.shape('working_sec_list.append(new_sec)' in t, 'SINK', 'SecUnpacker yields at least the matched section')
 
 
 def _kwargs(ctx):
